@@ -11,7 +11,7 @@ for l in open('/verif/properties.jsonl'):
         p = q
 avoid = ""
 titles = []
-for d in sorted(glob.glob('/verif/seeded/%s-*' % pid)):
+for d in sorted(glob.glob('/verif/seeded/%s*-*' % pid)):
     try:
         titles.append(json.load(open(d + '/meta.json')).get('title', ''))
     except Exception:
